@@ -31,19 +31,21 @@ CHECKS = {
 # family configuration: exhaustive config, generator config, scenario counts per tier
 FAMILY = {
     "C01": dict(mc="MC_Ledger", gen="MC_GenLedger", quick=240, thorough=2500, drivers=["secret", "configmap", "memory"],
-                sweep=(8, 60), sweep_uninstall=True, extra_gen=["MC_GenLedgerLong.cfg"], gen_depth=1200),
+                sweep=(8, 60), sweep_uninstall=True, extra_gen=["MC_GenLedgerLong.cfg"], gen_depth=1200,
+                enum=["MC_EnumLedger.cfg"], enum_thorough=["MC_EnumLedger4.cfg"]),
     "C02": dict(mc="MC_Cluster", gen="MC_GenCluster", quick=300, thorough=3000, drivers=["secret", "memory", "configmap"],
                 extra_gen=["MC_GenClusterRetry.cfg"], gen_split=True),
     "C03": dict(mc="MC_Fault", gen="MC_GenFault", quick=200, thorough=2000, drivers=["secret", "configmap", "memory"],
                 sweep=(6, 60)),
     "C06": dict(mc="MC_Dry", gen="MC_GenDry", quick=200, thorough=2000, drivers=["secret", "memory", "configmap"], cli=2,
                 enum=["MC_EnumDry.cfg"]),
-    "C07": dict(mc="MC_Own", gen="MC_GenOwn", quick=260, thorough=2000, drivers=["secret", "memory", "configmap"]),
+    "C07": dict(mc="MC_Own", gen="MC_GenOwn", quick=260, thorough=2000, drivers=["secret", "memory", "configmap"],
+                enum=["MC_EnumOwn.cfg"], enum_thorough=["MC_EnumOwn3.cfg"]),
     "C09": dict(mc="MC_Conc", gen="MC_GenConc", quick=480, thorough=4000, drivers=["secret", "memory", "configmap"], gen_split=True,
                 extra_mc=["MC_ConcDep.cfg", "MC_ConcLim.cfg"], extra_mc_thorough=["MC_ConcFault.cfg"],
                 extra_gen=["MC_GenConcDep.cfg", "MC_GenConc3.cfg", "MC_GenConcFault.cfg"]),
     "C12": dict(mc="MC_Hooks", gen="MC_GenHooks", quick=220, thorough=2500, drivers=["secret", "memory", "configmap"],
-                sweep=(10, 60)),
+                sweep=(10, 60), enum=["MC_EnumHooks.cfg"]),
 }
 
 
